@@ -6,7 +6,9 @@
    observable (every surviving element with its identifier and fields, in order, and the flags).
    A resolve case carries one ResolveToken call: the cache entry before, the scripted
    environment of each attempt, and what the implementation returned / left in the cache. *)
-From Verif Require Import Base.Prelude Filter.Model Filter.ResolveModel.
+From Verif Require Import Base.Prelude.
+From Verif Require Import Filter.Model.
+From Verif Require Import Filter.ResolveModel.
 
 (* ---- the authorizer as tabulated from Go ---- *)
 Record aztab := AzTab {
